@@ -28,7 +28,7 @@ PID = "C11"
 # real objects
 def imports():
     import holopy as hp
-    from holopy.scattering import Sphere, Spheres, RigidCluster, MieLens, Mie, Scatterers
+    from holopy.scattering import Sphere, Spheres, RigidCluster, MieLens, Mie, Scatterers, AberratedMieLens
     from holopy.inference import prior, AlphaModel, ExactModel
     from holopy.core.mapping import read_map
     return locals()
@@ -199,6 +199,24 @@ class TArith(Template):
         return (v[0], v[1] + v[2], 2 * v[3])
 
 
+class TArithReflected(Template):
+    name = "sphere n = 3 - a, r = 1 / b, x = c ** 2, z = 20 - d (number on the left of the operator)"
+    nsites = 4
+    scat_sites = 4
+
+    def build(self, v):
+        return AlphaModel(Sphere(n=3.0 - v[0], r=1.0 / v[1], center=(v[2] ** 2, 1.0, 20 - v[3])), alpha=0.8,
+                          medium_index=1.33, illum_wavelen=0.66,
+                          illum_polarization=(1, 0), noise_sd=0.1)
+
+    def observe(self, model, pars):
+        s = _scat_from(model, pars)
+        return (s.n, s.r, s.center[0], s.center[2])
+
+    def expect(self, v):
+        return (3.0 - v[0], 1.0 / v[1], v[2] ** 2, 20 - v[3])
+
+
 class TChannels(Template):
     name = "per-channel dicts: illum_wavelen{red,green}, alpha{red,green}"
     nsites = 4
@@ -237,6 +255,26 @@ class TTheory(Template):
         if type(th).__name__ != "MieLens":
             raise AssertionError("theory_from_parameters changed the theory class")
         return (s.n, s.r, th.lens_angle, alpha)
+
+
+class TTheoryArray(Template):
+    name = "sphere(n) + AberratedMieLens(spherical_aberration=array[., .], lens_angle) (priors inside an array)"
+    nsites = 4
+    scat_sites = 1
+
+    def build(self, v):
+        import numpy as _np
+        ab = _np.array([v[1], v[2]], dtype=object) if any(isinstance(x, prior.Prior) for x in (v[1], v[2])) \
+            else _np.array([v[1], v[2]])
+        return AlphaModel(Sphere(n=v[0], r=0.5, center=(1.0, 1.0, 5.0)), alpha=0.8,
+                          medium_index=1.33, illum_wavelen=0.66, illum_polarization=(1, 0), noise_sd=0.1,
+                          theory=H["AberratedMieLens"](spherical_aberration=ab, lens_angle=v[3]))
+
+    def observe(self, model, pars):
+        s = _scat_from(model, pars)
+        th = model.theory_from_parameters(pars)
+        ab = list(th.spherical_aberration)
+        return (s.n, ab[0], ab[1], th.lens_angle)
 
 
 class TRigid(Template):
@@ -352,7 +390,7 @@ class TMixed6(Template):
 
 
 TEMPLATES = {4: [TSphere(), TSphereOpticsAlpha(), TSpheres2(), TLayered(), TComplex(),
-                 TArith(), TChannels(), TTheory(), TRigid(), TRigidAxis(), TNested()],
+                 TArith(), TArithReflected(), TChannels(), TTheory(), TTheoryArray(), TRigid(), TRigidAxis(), TNested()],
              6: [TSphere6(), TSpheres3(), TMixed6()]}
 
 
